@@ -45,10 +45,10 @@ def run(ctx):
                            'after long histories.'}
 
 
-def pairing(ctx, rule, only=None):
+def pairing(ctx, rule, only=None, derived=True):
     """Every write of X.contents is followed, on every path to a normal exit, by a recompute of X.volume."""
     model = ctx.model
-    if only is None:
+    if only is None and derived:
         # the same discipline for anything else derived from the contents: nothing is kept in lazily filled attributes
         # of a container (they are copied with it) or in containers that outlive the call
         from .configtime import derived_values
@@ -158,6 +158,15 @@ def classify_volume(final, obj, okey, cver, writes, ff):
                 return False, 'a term is not converted to a volume through the Unit API'
         if not its:
             return False, 'the recompute does not iterate over contents'
+        # the loop runs whenever the reset to 0 ran: both are statements of the same block
+        loop = getattr(node, 'loop', None)
+        par = getattr(loop, 'parent', None)
+        if isinstance(loop, ast.For) and isinstance(par, ast.If):
+            block = par.body if any(b is loop for b in par.body) else par.orelse
+            reset_here = any(isinstance(b, ast.Assign) and any(isinstance(t, ast.Attribute) and t.attr == 'volume' for t in b.targets)
+                             for b in block)
+            if not reset_here:
+                return False, f"the recompute loop runs only when `{ast.unparse(par.test)[:40]}` holds, the reset to 0 always"
         return _iter_ok(its[0], obj, okey, cver, 'loop')
     sums = [n for n in walk_no_sym(node) if isinstance(n, ast.Call) and isinstance(n.func, ast.Name) and n.func.id == 'sum'
             and n.args and isinstance(n.args[0], ast.GeneratorExp)] if isinstance(node, ast.AST) and not isinstance(node, Sym) else []
